@@ -31,6 +31,7 @@ import (
 	"github.com/siglens/siglens/pkg/segment/query/iqr"
 	"github.com/siglens/siglens/pkg/segment/structs"
 	sutils "github.com/siglens/siglens/pkg/segment/utils"
+	"github.com/siglens/siglens/pkg/utils"
 )
 
 type inputlookupProcessor struct {
@@ -99,6 +100,9 @@ func (p *inputlookupProcessor) Process(inpIqr *iqr.IQR) (*iqr.IQR, error) {
 
 	if !isCSVFormat(filename) {
 		return nil, fmt.Errorf("inputlookupProcessor.Process: Only .csv and .csv.gz formats are currently supported")
+	}
+	if !utils.IsSimpleFileName(filename) {
+		return nil, fmt.Errorf("inputlookupProcessor.Process: Invalid lookup file name: %v", filename)
 	}
 
 	filePath := filepath.Join(config.GetLookupPath(), filename)
